@@ -17,6 +17,7 @@ struct ChunkLayout {
     int dict_tag = 8;                  // 2 PLAIN_DICTIONARY or 8 RLE_DICTIONARY on data pages
     int dict_page_enc = 0;             // 0 PLAIN or 2 PLAIN_DICTIONARY on the dictionary page
     int fallback_after = -1;           // pages with index >= this are PLAIN although a dictionary exists
+    int plain_first = 0;               // pages with index < this are PLAIN although a dictionary exists (plain pages BEFORE dictionary-encoded ones)
     int extra_index_bits = 0;          // index bit width wider than necessary
     int level_policy = 0, index_policy = 0;
     bool crc = false;
@@ -33,6 +34,7 @@ struct Lie {
     size_t chunk = 0; int page = 0;     // page index among the chunk's pages (0 = first page incl. dictionary page)
     std::vector<int> path;              // Thrift field path inside the PageHeader, e.g. {5,1} = data_page_header.num_values
     int64_t value = 0;
+    bool relative = false;              // header lies: value is a delta added to the true value (near-miss sizes and counts)
     int body_kind = 0;                  // 0 header field; 1 first byte of the values section (dictionary index bit width); 2 definition-level length prefix; 3 repetition-level length prefix
 };
 struct Layout {
@@ -182,7 +184,7 @@ static inline Written write_file(const Table& t, const Layout& lay) {
                     for (size_t k = 0; k + 1 < lie.path.size(); k++) { cur = cur->getm(lie.path[k]); if (!cur) { ok = false; break; } }
                     if (!ok) continue;
                     TV* leaf = cur->getm(lie.path.back());
-                    if (leaf) leaf->i = lie.value; else cur->add(lie.path.back(), TV::I32(lie.value));
+                    if (leaf) leaf->i = lie.relative ? leaf->i + lie.value : lie.value; else cur->add(lie.path.back(), TV::I32(lie.value));
                 }
             };
             auto apply_body_lies = [&](std::string& body, size_t rep_len, size_t def_len) {
@@ -241,7 +243,7 @@ static inline Written write_file(const Table& t, const Layout& lay) {
                 std::string def_bytes = col.max_def > 0 ? encode_levels(ch.def, col.max_def) : std::string();
                 // ---- values
                 std::string vals; int enc;
-                bool page_dict = use_dict && (L.fallback_after < 0 || pageno < L.fallback_after);
+                bool page_dict = use_dict && pageno >= L.plain_first && (L.fallback_after < 0 || pageno < L.fallback_after);
                 if (L.unsupported == 1 && (col.type == T_I32 || col.type == T_I64)) {
                     enc = 5; vals = delta_binary_packed(col.type, ch.vals, v0, v1);
                 } else if (L.unsupported == 2 && (col.type == T_F32 || col.type == T_F64)) {
